@@ -59,6 +59,8 @@ Full  == {e1, e1b, e2, d1, d1b, d2, f1, f1b, f2, f3, w1, w1b, w2, c1, c1b, c2, m
 \* container types (FrameSet, CalibrationSet, ExternPragmaMap) and one plain IndexMap
 Small == {f1, f1b, f2, c1, c1b, c2, e1, e1b, d1, b0, b1}
 Tiny  == {f1, f1b, f2, c1, c1b, e1, b0, b1}
+\* one key with two values in every table, and two body instructions: every line of AddAssign
+AllTables == {e1, e1b, d1, d1b, f1, f1b, w1, w1b, c1, c1b, m1, m1b, g1, g1b, k1, k1b, b0, b1}
 \* C10: no DEFFRAME, no frame operands, no variable qubits (DESIGN §6 C10: outside the alphabet)
 C10Alpha == {c1, c1b, c2, m1, m1b, gs, d1, b0, b1, b12, bs, bn}
 
@@ -70,33 +72,47 @@ ConcatTail == {"ConcatAB", "ConcatBA", "AddAssignAB"}
 AllTail == {"Add", "ConcatAB", "ConcatBA", "AddAssignAB", "AddAssignBA", "ConcatBB", "Clone", "CloneWithoutBody",
             "CloneWithoutBodySelf", "Resolve", "FromListing", "Filter", "Supplied", "New", "AddMany"}
 
+QuickC10Tail == AllTail \ {"New", "ConcatBB", "AddMany"}
 Profiles ==
   CASE Prop = "C08" /\ Tier = "quick" ->
          {Prof("adds", Full, 3, {}, 0, {}, {}, 0, 0),
           Prof("concat", Tiny, 2, Tiny, 2, ConcatTail, {}, 1, 1)}
     [] Prop = "C08" /\ Tier = "thorough" ->
-         {Prof("adds", Full, 4, {}, 0, {}, {}, 0, 0),
-          Prof("concat", Small, 3, Small, 2, ConcatTail, {}, 1, 1)}
+         {Prof("adds", Full, 3, {}, 0, {}, {}, 0, 0),
+          Prof("deep", Small, 5, {}, 0, {}, {}, 0, 0),
+          Prof("concat", Small, 2, Small, 2, ConcatTail, {}, 1, 1)}
     [] Prop = "C09" /\ Tier = "quick" ->
          {Prof("adds", Full, 3, {}, 0, {}, {}, 0, 0),
           Prof("bulk", Small, 2, {}, 0, {"FromListing", "AddMany"}, Small, 1, 2)}
     [] Prop = "C09" /\ Tier = "thorough" ->
-         {Prof("adds", Full, 4, {}, 0, {}, {}, 0, 0),
+         {Prof("adds", Full, 3, {}, 0, {}, {}, 0, 0),
+          Prof("deep", Small, 4, {}, 0, {}, {}, 0, 0),
           Prof("bulk", Small, 3, {}, 0, {"FromListing", "AddMany"}, Small, 1, 2)}
     [] Prop = "C10" /\ Tier = "quick" ->
-         {Prof("ops", {}, 0, {}, 0, AllTail \ {"New", "ConcatBB", "AddMany"}, C10Alpha \ {d1, bn}, 3, 3)}
+         {Prof("ops", {}, 0, {}, 0, QuickC10Tail, C10Alpha \ {d1, bn}, 3, 3)}
     [] Prop = "C10" /\ Tier = "thorough" ->
-         {Prof("ops", {}, 0, {}, 0, AllTail, C10Alpha, 4, 4)}
+         {Prof("ops", {}, 0, {}, 0, AllTail, C10Alpha, 3, 3),
+          Prof("ops4", {}, 0, {}, 0, QuickC10Tail \ {"Clone"}, {c1, c1b, b0}, 4, 4)}
+    [] Prop = "C10" /\ Tier = "deep" ->          \* for -simulate: random sequences of 8 operations
+         {Prof("ops8", {}, 0, {}, 0, AllTail, C10Alpha, 8, 8)}
     [] Prop = "C11" /\ Tier = "quick" ->
-         {Prof("pairs", Tiny, 2, Tiny, 2, {"ConcatAB", "AddAssignAB"}, {}, 1, 1)}
+         {Prof("pairs", Tiny, 2, Tiny, 2, {"ConcatAB", "AddAssignAB"}, {}, 1, 1),
+          Prof("tables", AllTables, 1, AllTables, 1, {"ConcatAB", "AddAssignAB"}, {}, 1, 1)}
     [] Prop = "C11" /\ Tier = "thorough" ->
-         {Prof("pairs", Small, 3, Small, 2, {"ConcatAB", "AddAssignAB"}, {}, 1, 1)}
+         {Prof("pairs", Small, 2, Small, 2, {"ConcatAB", "AddAssignAB"}, {}, 1, 1),
+          Prof("pairs3", Tiny, 3, Tiny, 2, {"ConcatAB", "AddAssignAB"}, {}, 1, 1),
+          Prof("tables", AllTables, 2, AllTables, 1, {"ConcatAB", "AddAssignAB"}, {}, 1, 1)}
 
 ----------------------------------------------------------------------------
 VARIABLES prof, phase, hist
 mcvars == <<regs, prof, phase, hist>>
 
-MCInit == Init /\ prof \in Profiles /\ phase = "A" /\ hist = <<>>
+\* sections a profile leaves empty are skipped
+NextPhase(pr, ph) == CASE ph = "start" -> IF pr.maxA > 0 THEN "A" ELSE IF pr.maxB > 0 THEN "B" ELSE IF pr.maxT > 0 THEN "T" ELSE "done"
+                       [] ph = "A"     -> IF pr.maxB > 0 THEN "B" ELSE IF pr.maxT > 0 THEN "T" ELSE "done"
+                       [] ph = "B"     -> IF pr.maxT > 0 THEN "T" ELSE "done"
+                       [] ph = "T"     -> "done"
+MCInit == Init /\ prof \in Profiles /\ phase = NextPhase(prof, "start") /\ hist = <<>>
 
 Count(sec) == Cardinality({n \in DOMAIN hist : hist[n].sec = sec})
 
@@ -112,10 +128,8 @@ Do(o, sec) == /\ Step(o)
 
 AddA == /\ phase = "A" /\ Count("A") < prof.maxA
         /\ \E i \in prof.alphaA : Do([ev |-> "Add", dst |-> "A", i |-> i], "A")
-ToB  == /\ phase = "A" /\ phase' = "B" /\ UNCHANGED <<regs, prof, hist>>
 AddB == /\ phase = "B" /\ Count("B") < prof.maxB
         /\ \E i \in prof.alphaB : Do([ev |-> "Add", dst |-> "B", i |-> i], "B")
-ToT  == /\ phase = "B" /\ phase' = "T" /\ UNCHANGED <<regs, prof, hist>>
 
 InTail(kind) == phase = "T" /\ Count("T") < prof.maxT /\ kind \in prof.tail
 Other(r) == IF r = "A" THEN "B" ELSE "A"
@@ -147,11 +161,13 @@ TNew      == InTail("New") /\ Do([ev |-> "New", dst |-> "A"], "T")
 TSupplied == InTail("Supplied") /\ K("A") /\
              \E n \in SuppliedNames : Do([ev |-> "Opaque", name |-> n, dst |-> "B", a |-> "A"], "T")
 
-Finish == /\ phase = "T" /\ Count("T") >= prof.minT /\ (Count("T") = prof.maxT \/ prof.minT < prof.maxT)
-          /\ phase' = "done" /\ UNCHANGED <<regs, prof, hist>>
+\* close the current section (the tail section only once it has its minimum number of operations)
+Advance == /\ phase \in {"A", "B", "T"}
+           /\ (phase = "T" => Count("T") >= prof.minT /\ (Count("T") = prof.maxT \/ prof.minT < prof.maxT))
+           /\ phase' = NextPhase(prof, phase) /\ UNCHANGED <<regs, prof, hist>>
 
-MCNext == AddA \/ ToB \/ AddB \/ ToT \/ TAdd \/ TAddManyAll \/ TAddManyPair \/ TConcat \/ TAddAssign \/ TClone \/ TCloneWithoutBody
-          \/ TResolve \/ TFromListing \/ TFilter \/ TNew \/ TSupplied \/ Finish
+MCNext == AddA \/ AddB \/ Advance \/ TAdd \/ TAddManyAll \/ TAddManyPair \/ TConcat \/ TAddAssign \/ TClone \/ TCloneWithoutBody
+          \/ TResolve \/ TFromListing \/ TFilter \/ TNew \/ TSupplied
 MCSpec == MCInit /\ [][MCNext]_mcvars
 
 ----------------------------------------------------------------------------
